@@ -73,6 +73,61 @@ def classify_ns(e_text, x, y):
 
 
 # ---------------------------------------------------------------------------------------------------------
+CONSTRUCT_DOCS = [
+    "<r><a><b>1</b><c><b>2</b><b>3</b></c></a><a><b>4</b></a><s><p>x</p><s><p>y</p><p>z</p></s></s><b>2</b></r>",
+    "<r id='1'><a x='1'>t<a x='2'><a x='3'/>u</a></a><!--c--><b x='2'>1</b><b>true</b><b/><?pi d?></r>",
+]
+
+
+def construct_stream(thorough):
+    """structured (not random) expressions: every comparison operator over every pair of operand types, inner `//`
+    and every axis under positional predicates, filters over unions"""
+    bools = ["true()", "false()"]
+    nums = ["0", "1", "2", "-1", "(0 div 0)", "1.5"]
+    strs = ["''", "'a'", "'1'", "'2'", "'true'", "' 1 '"]
+    sets = ["//b", "//nosuch", "/r/a[1]//b", "//@x", "//b[1]", "/r/b"]
+    pool = bools + nums + strs + sets
+    ex = []
+    for op in ("=", "!=", "<", "<=", ">", ">="):
+        for a in pool:
+            for b in pool:
+                ex.append("%s %s %s" % (a, op, b))
+    names = ["a", "b", "p", "s", "*", "node()", "text()"]
+    preds = ["[1]", "[2]", "[last()]", "[position() < 2]", "[position() = last()]", "[2][1]", "[b]", "[not(*)]"]
+    for n in names:
+        for pr in preds:
+            for tmpl in ("/r//%s%s", "r//%s%s", "/r/a//%s%s", "(//a)[1]//%s%s", "//s//%s%s", "/r//s//%s%s", "//%s%s", "/r/*//%s%s",
+                         "//a//%s%s/..", "/descendant::%s%s", "/r/descendant-or-self::node()/%s%s", "(/r//%s)%s"):
+                ex.append(tmpl % (n, pr))
+    from gen import xpathgen as G2
+    for ax in G2.AXES:
+        for start in ("//b", "//a", "/r/*[2]", "//p", "//@x", "//text()"):
+            for pr in ("", "[1]", "[2]", "[last()]"):
+                ex.append("%s/%s::*%s" % (start, ax, pr))
+                ex.append("%s/%s::node()%s" % (start, ax, pr))
+    for u in ("(//a | //b)", "(//b | //a)", "(//p | //s | /r)", "(//@x | //b)"):
+        for pr in ("[1]", "[2]", "[last()]", "[position() > 1]"):
+            ex.append(u + pr)
+            ex.append("count(%s%s)" % (u, pr))
+            ex.append("string(%s%s)" % (u, pr))
+    for f in ("boolean", "number", "string", "not"):
+        for a in pool:
+            ex.append("%s(%s)" % (f, a))
+    for op in ("and", "or"):
+        for a in bools + nums[:3] + strs[:2] + sets[:2]:
+            for b in bools + nums[:3] + strs[:2] + sets[:2]:
+                ex.append("%s %s %s" % (a, op, b))
+    return ex
+
+
+def _before(k1, k2):
+    """document order on path keys; the relative order of the attributes of ONE element is implementation-dependent
+    (XPath 1.0 section 5): there only distinctness is required"""
+    if k1 and k2 and k1[:-1] == k2[:-1] and k1[-1][0] == 0 and k2[-1][0] == 0:
+        return k1 != k2
+    return k1 < k2
+
+
 def run_c05(chk):
     thorough = chk.tier == "thorough"
     rng = random.Random(lib.seed())
@@ -92,6 +147,12 @@ def run_c05(chk):
             d = dg.document()
         cases.append((d, G.render_doc(d), [("lit", q) for q in DEFQ]))
         qs.append((G.render_doc(d), XP.BINDINGS, DEFQ))
+    cex = construct_stream(thorough)
+    for cd in CONSTRUCT_DOCS:
+        for i in range(0, len(cex), 40):
+            cases.append(({"root": ("E", "r", {}, [], []), "heads": [], "tails": [], "dtd": None}, cd, [("lit", q) for q in cex[i:i + 40]]))
+            qs.append((cd, XP.BINDINGS, cex[i:i + 40]))
+    chk.cov["construct_stream"] = "%d structured expressions x %d documents" % (len(cex), len(CONSTRUCT_DOCS))
     impl, spec = XP.run_queries("qfresh", qs, quirks="")
     cur = lib.run_lines(lib.model_driver(), [lib.req("queryq", "rz", t, b, *es) for t, b, es in qs], timeout=900)
     ex = Explainer("C05", chk, qs)
@@ -126,8 +187,10 @@ def run_c05(chk):
                        "expressions each (all path forms, 13 axes, name/type tests, positional and nested predicates, unions, "
                        "filters, arithmetic, comparisons, boolean operators, the core library except id()); merged-text view, "
                        "caller bindings p,q; oracle: the Lean model with every quirk off; values compared exactly (numbers by bit "
-                       "pattern, node-sets as ordered lists of paths); non-trivial = neither an error nor the empty node-set"
-                       % (ndocs, nexpr))
+                       "pattern, node-sets as ordered lists of paths); plus a structured stream on two nested documents: the six "
+                       "comparison operators over every pair of operand types, inner `//` and all 13 axes under positional "
+                       "predicates, filters over unions, and/or, boolean()/number()/string() of every operand type; "
+                       "non-trivial = neither an error nor the empty node-set" % (ndocs, nexpr))
     for t, e, x, y, z in mfail[:4]:
         chk.violation("value_%s" % lib.enc(e)[:60],
                       "property C05: %s\non document (percent-encoded): %s\nimplementation: %s\nXPath 1.0 (model): %s\n"
@@ -324,7 +387,7 @@ def run_c07(chk):
                     why = None
                     if any(x >= y2 for x, y2 in zip(orders, orders[1:])):
                         why = "order keys not strictly increasing: %s" % orders
-                    elif any(x >= y2 for x, y2 in zip(keys, keys[1:])) and not nsq:
+                    elif any(not _before(x, y2) for x, y2 in zip(keys, keys[1:])) and not nsq:
                         why = "not in document order / duplicate node"
                     elif len(set(p for p, _, _ in items)) != len(items) and not nsq:
                         why = "a node occurs twice"
